@@ -21,6 +21,7 @@ func init() {
 			"Metamorphic relations over per-position results (bytes + checksum; failures by class and message with the location prefix masked): " +
 			"T(A++B) = T(A)++T(B) for random split points; T(perm(A)) = perm(T(A)) for random permutations, rotations, transpositions; replacing record i by " +
 			"one that fails (type cast / custom function error / two matches under an object field) changes exactly position i into a per-record failure. " +
+			"A third of the runs are preceded by unrelated (namespaced XML, typed JSON, javascript) transforms in the same process. " +
 			"distinct = digest(format, schema, list, relation); non-trivial = list has >= 3 records.",
 		Assumptions: []string{
 			"only the location prefix of error messages (line / segment / character numbers) is masked: positions legitimately shift when records move",
